@@ -1262,7 +1262,7 @@ class Case:
         d = dump_db(path, self.I)
         self.events.append(dict(req=f"(load i{r} {dump_to_sx(d)})", kind="ack", name="load"))
 
-    def transfer(self, src, dst, roots=None, twice=False):
+    def transfer(self, src, dst, roots=None, twice=False, how="direct"):
         """records reachable from `roots` (default: all executions) of `src` -> `dst`, by the code path of
         `redun push/pull` (`RedunClient._sync_records`)."""
         from redun.backends.db import Execution, Job
@@ -1274,9 +1274,16 @@ class Case:
                         .order_by(Job.start_time.desc()).all())
                 roots = [row[0] for row in rows]
             for _ in range(2 if twice else 1):
-                record_ids = ss.backend.iter_record_ids(roots)
-                records = ss.backend.get_records(record_ids)
-                n = sd.backend.put_records(records)
+                if how == "sync":
+                    # the body of `redun push` / `redun pull`
+                    from redun.cli import RedunClient
+                    n = RedunClient()._sync_records(ss.backend, sd.backend, list(roots))
+                elif how == "file":
+                    n = self._export_import(ps, pd, roots)
+                else:
+                    record_ids = ss.backend.iter_record_ids(roots)
+                    records = ss.backend.get_records(record_ids)
+                    n = sd.backend.put_records(records)
         finally:
             close_scheduler(ss)
             close_scheduler(sd)
@@ -1287,6 +1294,28 @@ class Case:
         self.disturb.append("transfer")
         self.transferred = True
         return n
+
+    def _export_import(self, ps, pd, roots):
+        """`redun export --file f ids...` in the source, `redun import --file f` in the destination"""
+        import tempfile
+        from redun.cli import RedunClient
+
+        def cfg(db_path):
+            d = tempfile.mkdtemp(prefix="cfg-", dir=self.env.base)
+            os.makedirs(os.path.join(d, ".redun"))
+            with open(os.path.join(d, ".redun", "redun.ini"), "w") as f:
+                f.write(f"[backend]\ndb_uri = sqlite:///{db_path}\n")
+            return os.path.join(d, ".redun")
+        f = os.path.join(self.env.base, f"export-{len(os.listdir(self.env.base))}.json")
+        for argv in (["redun", "--config", cfg(ps), "export", "--file", f] + list(roots),
+                     ["redun", "--config", cfg(pd), "import", "--file", f]):
+            c = RedunClient()
+            c.execute(argv)
+            try:
+                close_scheduler(c.scheduler)
+            except Exception:  # noqa: BLE001
+                pass
+        return None
 
     def lines(self):
         v = " ".join("T" if self.flags[f] else "F" for f in FLAG_NAMES)
